@@ -16,6 +16,7 @@ struct ghost_glob {
 	int dep;		/* nesting depth of this global */
 	int sets, any_exec;
 } GW;
+struct ghost_rep { int on; char out[24]; int n; } R;	/* replace units: the bytes appended, in order */
 /* ghost state of the substitute units (declared early: the environment reset macro clears S.line) */
 struct ghost_sub {
 	char *line;		/* the line being rewritten (what lbuf_get returned) */
@@ -131,7 +132,7 @@ int lbuf_wr(struct lbuf *lb, int fd, int beg, int end)
 	return g_wr_ret;
 }
 
-#define FILE_ENV_HAVOC() do { S.line = 0; g_st_exists = nondet_bool(); g_st_mtime = nondet_long(); \
+#define FILE_ENV_HAVOC() do { S.line = 0; R.on = 0; g_st_exists = nondet_bool(); g_st_mtime = nondet_long(); \
 	__CPROVER_assume(g_st_mtime >= 0); g_stat_calls = 0; g_open_calls = 0; g_open_ok = 0; \
 	g_close_calls = 0; g_close_fail = 0; g_wr_calls = 0; g_wr_ret = 0; g_open_fd = -1; E.f_wr_fail_any = 0; E.f_open_fail_any = 0; \
 	g_len = nondet_int(); __CPROVER_assume(g_len >= 0 && g_len <= 0x1000000); } while (0)
@@ -1265,10 +1266,10 @@ char *sbuf_buf(struct sbuf *sb)
 	return g_outbuf;
 }
 /* verbatim copy of n bytes of the line: must continue exactly where the accounting stands */
-struct ghost_rep { int on; char out[24]; int n; } R;	/* replace units: the bytes appended, in order */
 void sbuf_mem(struct sbuf *sb, char *s, int len)
 {
 	__CPROVER_assert(sb == &g_sbuf && len >= 0, "sbuf_mem: live buffer, non-negative length");
+#ifndef UNIT_SUBST	/* the substitute unit accounts for positions instead (cheaper) */
 	__CPROVER_assert(len == 0 || __CPROVER_r_ok(s, len), "sbuf_mem: source readable for len bytes");
 	if (R.on) {
 		/* loop-free (locals of a callee cannot be loop-assigned): at most 8 bytes are recorded */
@@ -1276,6 +1277,7 @@ void sbuf_mem(struct sbuf *sb, char *s, int len)
 		RREC_(0) RREC_(1) RREC_(2) RREC_(3) RREC_(4) RREC_(5) RREC_(6) RREC_(7)
 #undef RREC_
 	}
+#endif
 	if (S.line && __CPROVER_same_object(s, S.line)) {
 		if ((long) __CPROVER_POINTER_OFFSET(s) != S.in_pos || S.in_pos + len > S.L)
 			S.bad = 1;
@@ -1290,10 +1292,12 @@ void sbuf_mem(struct sbuf *sb, char *s, int len)
 void sbuf_chr(struct sbuf *sb, int c)
 {
 	__CPROVER_assert(sb == &g_sbuf, "sbuf_chr: live buffer");
+#ifndef UNIT_SUBST
 	if (R.on && R.n >= 0 && R.n < 24) {
 		R.out[R.n] = (char) c;
 		R.n = R.n + 1;
 	}
+#endif
 	/* in ec_substitute a single character is only ever appended as the verbatim copy of the next line byte */
 	if (S.line) {
 		if (S.in_pos >= S.L || (unsigned char) S.line[S.in_pos] != (unsigned char) c)
@@ -1435,6 +1439,11 @@ _Bool inv_sub_inner(char *ln, struct sbuf *r)
 }
 #pragma CPROVER check pop
 
+int ec_substitute_frame_contract(char *loc, char *cmd, char *arg, char *txt)
+__CPROVER_requires(loc != 0 && cmd != 0 && arg != 0)
+__CPROVER_assigns(S, X, g_len, xrow, g_flags, g_has_g, xkwddir, __CPROVER_object_whole(xkwd), __CPROVER_object_whole(xrep))
+;
+
 void h_ec_substitute(void)
 {
 	char loc[2], cmd[19], *arg;
@@ -1454,6 +1463,7 @@ void h_ec_substitute(void)
 	g_subline = malloc(S.L + 1);
 	__CPROVER_assume(g_subline[S.L - 1] == '\n' && g_subline[S.L] == 0);
 	__CPROVER_assume(g_mk >= (unsigned long) (S.L - 1) || (g_subline[g_mk] != 0 && g_subline[g_mk] != '\n'));
+	R.on = 0; R.n = 0;
 	S.line = 0; S.bad = 0; S.sb_live = 0; S.sb_made = 0; S.sb_freed = 0; S.edits = 0; S.last_edit = -1; S.lines_seen = 0;
 	S.re_ok = nondet_bool(); S.rep_calls = 0; S.expect_char = 0; g_flags = 0; S.finds = 0; S.matches = 0; S.in_pos = 0;
 	S.beg = B.region_beg; S.end = B.region_end;
